@@ -40,7 +40,7 @@ def _engine_tasks(what, args):
     if what == "C12":
         from . import schedsim as eng
         n = args.runs or (1200 if args.tier == "quick" else 30000)
-        parts = set(os.environ.get("VERIF_C12_PARTS", "random,site,callrace,datascale").split(","))   # debugging aid
+        parts = set(os.environ.get("VERIF_C12_PARTS", "random,site,callrace,datascale,presweep").split(","))   # debugging aid
         tasks = driver.seeds_for(args.seed, "C12", n) if "random" in parts else []
         if not args.runs and not getattr(args, "no_sweep", False) and args.what != "digests":
             if args.tier == "quick" and "site" in parts:
@@ -52,7 +52,7 @@ def _engine_tasks(what, args):
         share = float(os.environ.get("VERIF_INSTR_SHARE", "0.3" if args.tier == "thorough" else "0"))
         if share > 0:
             tasks = [{**t, "cfg": {"instr_share": share}} for t in tasks]
-        if args.tier == "thorough" and not getattr(args, "no_sweep", False) and args.what != "digests":
+        if args.tier == "thorough" and not getattr(args, "no_sweep", False) and args.what != "digests" and "presweep" in parts:
             tasks += preemption_sweep_tasks(eng, args)
         return eng, tasks
     if what in ("C11", "C20"):
@@ -327,7 +327,8 @@ def preemption_sweep_tasks(eng, args):
             except Exception:  # noqa: BLE001
                 continue
             ks = {k for v in solo["hot"].values() for k in v}
-            ks.update(range(1, solo["steps"] + 1, 10))
+            if bi not in C12_SCALE_BASES:     # (a scale run costs seconds: only the lookup/creation/caching sites there)
+                ks.update(range(1, solo["steps"] + 1, 10))
             for k in sorted(ks):
                 tasks.append({"scenario": {**base, "seed": f"sweep1:{bi}:{t}:{k}",
                                            "policy": {"kind": "sweep1", "t": t, "k": k}, "sweep": True}})
